@@ -121,8 +121,8 @@ def actDir (c : Cfg) (pastMarker : Bool) (path : Bytes) (noEnts : Bool) : Act :=
   else actTail c pastMarker pslash .nil
 
 /-- the whole callback (for `path ≠ "."`) up to the state update -/
-def act (c : Cfg) (pastMarker : Bool) (path name : Bytes) (isDir noEnts : Bool) : Act :=
-  if c.skip.contains name then .ret .skipDir else
+def act (c : Cfg) (pastMarker : Bool) (path _name : Bytes) (isDir noEnts : Bool) : Act :=
+  if isDir && c.skip.contains path then .ret .skipDir else     -- `d.IsDir() && contains(path, skipdirs)`
   if isDir then actDir c pastMarker path noEnts else actTail c pastMarker path .nil
 
 /-- the state update of each `return` site; `if pastMax { truncated = true; return fs.SkipAll }` -/
@@ -198,15 +198,20 @@ def init (c : Cfg) : St := ⟨c.marker == [], false, false, [], [], []⟩
 def finish (s : St) : Result :=
   ⟨s.objects, sortDedup s.cps, s.truncated, if s.truncated then s.newMarker else []⟩
 
+/-- `root == skip || strings.HasPrefix(root, skip+"/")` for some skip dir -/
+def insideSkip (skip : List Bytes) (root : Bytes) : Bool :=
+  skip.any fun s => root == s || hasPrefix root (s ++ [slash])
+
 /-- backend.Walk on the tree whose top-level (bucket directory) entries are `top` -/
 def walk (c : Cfg) (top : List Tree) : Result :=
   if c.max = 0 then .empty else
+  if insideSkip c.skip ((rootOf c.pfx).getD [46]) then .empty else   -- nothing inside an internal directory
   match rootOf c.pfx with
   | none => finish (walkList c [] (init c) top).1          -- path "." is ignored by the callback
   | some root =>
     if root = [46] then finish (walkList c [] (init c) top).1 else
     let elems := splitOn slash root
-    if !elems.all validElem then .empty else               -- fs.ValidPath fails: ErrNotExist, suppressed
+    if !elems.all validElem then .empty else               -- fs.ValidPath fails: ErrNotExist / ErrInvalid, suppressed
     match descend elems [] top with
     | none => .empty                                       -- ErrNotExist / ENOTDIR, suppressed
     | some (base, t) => finish (walkNode c base (init c) t).1
@@ -262,10 +267,10 @@ end
 
 mutual
 /-- the keys stored in the tree, in pre-order: files and directories for which `getObj` answers,
-outside subtrees whose name is in the skip list -/
+outside the directories whose PATH is in the skip list -/
 def keysNode (g : GetObj) (skip : List Bytes) (base : Bytes) : Tree → List Bytes
-  | .file n => if skip.contains n then [] else if (g (base ++ n)).isSome then [base ++ n] else []
-  | .dir n cs => if skip.contains n then [] else
+  | .file n => if (g (base ++ n)).isSome then [base ++ n] else []
+  | .dir n cs => if skip.contains (base ++ n) then [] else
       (if (g (base ++ n ++ [slash])).isSome then [base ++ n ++ [slash]] else []) ++
         keysList g skip (base ++ n ++ [slash]) cs
 def keysList (g : GetObj) (skip : List Bytes) (base : Bytes) : List Tree → List Bytes
@@ -304,20 +309,10 @@ def wfList : List Tree → Bool
 end
 
 mutual
-/-- no FILE has a name in the skip list (directories may: they are the internal bookkeeping) -/
-def noSkipFileNode (skip : List Bytes) : Tree → Bool
-  | .file n => !skip.contains n
-  | .dir _ cs => noSkipFileList skip cs
-def noSkipFileList (skip : List Bytes) : List Tree → Bool
-  | [] => true
-  | t :: ts => noSkipFileNode skip t && noSkipFileList skip ts
-end
-
-mutual
 /-- every directory holds at least one key (no "phantom" directories) -/
 def populatedNode (g : GetObj) (skip : List Bytes) (base : Bytes) : Tree → Bool
   | .file _ => true
-  | .dir n cs => skip.contains n ||
+  | .dir n cs => skip.contains (base ++ n) ||
       (!(keysNode g skip base (.dir n cs)).isEmpty && populatedList g skip (base ++ n ++ [slash]) cs)
 def populatedList (g : GetObj) (skip : List Bytes) (base : Bytes) : List Tree → Bool
   | [] => true
